@@ -22,14 +22,14 @@ ASSUMPTIONS = [
     "skeleton = per emitted file the tree of ast node class names; file names are ignored for positions that legitimately rename files (tags)",
     "name positions whose payload has no identifier characters at all are name-derivation cases (C20) and are reported under their own clause here",
 ]
-BOUND = {"quick": "31 positions x 55 payloads = 1705 documents", "thorough": "+ every string of length<=3 over {\", \\\\, LF, a} at every position (2268) + all position pairs for 4 payloads"}
+BOUND = {"quick": "35 positions x 57 payloads = 1995 documents", "thorough": "+ every string of length<=3 over {\", \\\\, LF, a} at every position (2268) + all position pairs for 4 payloads"}
 CHUNK = 4
 
 PAYLOADS = {
     "dquote": 'a"b', "squote": "a'b", "triple-dquote": 'a"""b', "triple-squote": "a'''b", "backslash": "a\\b", "trailing-backslash": "ab\\",
     "lf": "a\nb", "cr": "a\rb", "crlf": "a\r\nb", "escaped-triple": 'a\\"""b', "hash": "a#b", "braces": "a{x}b", "percent": "a%sb", "tab": "a\tb",
     "formfeed": "a\x0cb", "nel": "a\u0085b", "ls": "a b", "ctrl": "a\x01b", "latin": "aéb", "cjk": "a名b", "emoji": "a😀b", "outer-space": " ab ",
-    "keyword": "class", "long": "a" + "x" * 300 + "b", "backslash-n-literal": "a\\nb", "quote-end": 'ab"',
+    "keyword": "class", "keyword-capitalised": "From", "keyword-upper": "IMPORT", "long": "a" + "x" * 300 + "b", "backslash-n-literal": "a\\nb", "quote-end": 'ab"',
     # length x special character interplay (truncation / wrapping code paths)
     "long-lf": "a" + "x" * 60 + "\n" + "y" * 60 + "b", "long-cr": "a" + "x" * 60 + "\r" + "y" * 60 + "b",
     "long-lf-code": "a" + "x" * 40 + "\n    is_admin: bool = True  # " + "y" * 70,
@@ -53,7 +53,9 @@ POSITIONS = ["info.title", "info.description", "op.summary", "op.description", "
              "media.type", "schema.title", "requestBody.description", "enum.description", "items.description", "example", "tag.description",
              "alias-union.description", "alias-array.description", "alias-scalar.description",
              "server.description", "externalDocs.description", "inline-enum.value", "pathitem-param.description", "error-response.description",
-             "path.name"]
+             "path.name",
+             # descriptions of schemas that are rendered by other code paths than an object with properties
+             "empty-schema.description", "free-object.description", "map-schema.description", "allof-schema.description"]
 NAME_POSITIONS = {"property.name", "query.name", "header.name", "tag"}
 HEADER_SAFE = {"header.name"}
 
@@ -123,6 +125,10 @@ def build(texts):
             "Dog": {"type": "object", "required": ["kind"], "properties": {"kind": {"type": "string"}, "bark": {"type": "boolean"}}},
             "Names": {"type": "array", "description": t("alias-array.description"), "items": {"type": "string"}},
             "Count": {"type": "integer", "description": t("alias-scalar.description")},
+            "Marker": {"type": "object", "description": t("empty-schema.description")},
+            "Extra": {"type": "object", "additionalProperties": True, "description": t("free-object.description")},
+            "Counts": {"type": "object", "additionalProperties": {"type": "integer"}, "description": t("map-schema.description")},
+            "SubThing": {"description": t("allof-schema.description"), "allOf": [R("Cat"), {"type": "object", "properties": {"extraNote": {"type": "string"}}}]},
             "Animal": {"description": t("alias-union.description"), "oneOf": [R("Cat"), R("Dog")], "discriminator": {"propertyName": "kind", "mapping": {
                 t("discriminator.value"): "#/components/schemas/Cat", "dog": "#/components/schemas/Dog"}}},
         }},
